@@ -22,6 +22,20 @@ import (
 func init() {
 	register("C10", "model_checking", C10)
 	Replayers["C10"] = func(raw []byte) string {
+		var mf struct {
+			File string `json:"file"`
+		}
+		if json.Unmarshal(raw, &mf) == nil && mf.File != "" {
+			var res []string
+			c10ManyFiles(func(sig, msg string, cas any) bool {
+				res = append(res, sig+": "+msg)
+				return true
+			})
+			if len(res) == 0 {
+				return "holds"
+			}
+			return strings.Join(res, "\n")
+		}
 		var hc explore.HistCase
 		if err := json.Unmarshal(raw, &hc); err != nil {
 			return "bad case"
@@ -649,7 +663,85 @@ func C10(r *ev.Run) {
 		}
 		t.perScen = append(t.perScen, map[string]any{"scenario": sc.Name, "letters": len(sc.Letters), "states": st.States, "transitions": st.Transitions, "depth_completed": st.MaxDepth, "fixpoint": st.Fixpoint})
 	}
+	// many multi-block files in one squashfs image (the inode table spans several metadata blocks, so that block lists of
+	// some inodes straddle a metadata-block boundary): a fixed Read/Seek sequence on every one of them against bytes.Reader
+	mfStates, mfTrans := c10ManyFiles(r.Report)
+	t.states += mfStates
+	t.transitions += mfTrans
+	t.perScen = append(t.perScen, map[string]any{"scenario": "readseek/squashfs-many-files", "files": mfStates, "calls": mfTrans, "fixpoint": false})
 	t.write(r)
 	r.Assume("bytes.Reader semantics are the specification of Read/Seek; a state is (cursor, closed, kind of last call, block the last data-returning Read ended in - handles cache their last block); exploration stops expanding a state whose cursor is more than two blocks past EOF")
 	_ = memdev.PageSize
+}
+
+// c10ManyFiles: 72 files of 40..80 blocks (incompressible and compressible alternating) in one 4 KiB-block squashfs image.
+func c10ManyFiles(report func(sig, msg string, cas any) bool) (files, calls int64) {
+	const c = 4096
+	tree := &treeSpec{Files: map[string][]byte{}}
+	for i := 0; i < 72; i++ {
+		n := (40+(i*7)%41)*c + (i*131)%c
+		if i%2 == 0 {
+			tree.Files[fmt.Sprintf("f%04d.bin", i)] = randomBytes(uint64(3000+i), n)
+		} else {
+			tree.Files[fmt.Sprintf("f%04d.bin", i)] = patternBytes(i, n)
+		}
+	}
+	for _, nofrag := range []bool{false, true} {
+		img, err := buildSquash(tree, squashfs.FinalizeOptions{NoFragments: nofrag}, c, 0)
+		if err != nil {
+			report("c10|squashfs|build-failed|many-files", "cannot build the many-files image: "+err.Error(), nil)
+			return
+		}
+		fs, err := img.open(true)
+		if err != nil {
+			report("c10|squashfs|open|many-files", "cannot open the many-files image: "+err.Error(), nil)
+			return
+		}
+		for _, p := range tree.sortedFiles() {
+			data := tree.Files[p]
+			ref := bytes.NewReader(data)
+			var f filesystem.File
+			if pm := guard(func() { f, err = fs.OpenFile(p, os.O_RDONLY) }); pm != "" || err != nil {
+				report("c10|readseek|squashfs|many-files|open", fmt.Sprintf("%s: %v %s", p, err, pm), map[string]any{"file": p, "no_fragments": nofrag})
+				continue
+			}
+			files++
+			type step struct {
+				seek   bool
+				off    int64
+				whence int
+				n      int
+			}
+			steps := []step{{n: c + 1}, {seek: true, off: -int64(2*c + 7), whence: io.SeekEnd}, {n: 2 * c}, {n: 4 * c}, {seek: true, off: int64(len(data) / 2), whence: io.SeekStart}, {n: c - 1}, {seek: true, off: 0, whence: io.SeekStart}, {n: 7}}
+			for si, st := range steps {
+				calls++
+				bad := ""
+				if pm := guard(func() {
+					if st.seek {
+						a, e1 := f.Seek(st.off, st.whence)
+						b, e2 := ref.Seek(st.off, st.whence)
+						if (e1 == nil) != (e2 == nil) || (e1 == nil && a != b) {
+							bad = fmt.Sprintf("Seek(%d,%d) returned (%d,%v), bytes.Reader (%d,%v)", st.off, st.whence, a, e1, b, e2)
+						}
+						return
+					}
+					got := make([]byte, st.n)
+					want := make([]byte, st.n)
+					k, e1 := io.ReadFull(f, got)
+					m, _ := io.ReadFull(ref, want)
+					if k != m || !bytes.Equal(got[:k], want[:m]) {
+						bad = fmt.Sprintf("reading %d bytes returned %d bytes (%v) that differ from the file's (%d bytes; first difference at +%d)", st.n, k, e1, m, firstDiff(got[:k], want[:m]))
+					}
+				}); pm != "" {
+					bad = "panic: " + pm
+				}
+				if bad != "" {
+					report("c10|readseek|squashfs|many-files|wrong-bytes", fmt.Sprintf("%s (%d bytes, step %d): %s", p, len(data), si, bad), map[string]any{"file": p, "no_fragments": nofrag, "step": si})
+					break
+				}
+			}
+			f.Close()
+		}
+	}
+	return
 }
